@@ -426,6 +426,7 @@ for _be, _tier, _to in ((3, 'quick', 600), (4, 'thorough', 1800)):
   }
 """,
     reach=True, no_flags=['--conversion-check'], timeout=_to,
+    replay=dict(prog='csr_transpose', lib=True, args=['nn', 'ne'] + ['OIDX[%dl]' % i for i in range(3)] + ['ODST[%dl]' % i for i in range(_be)] + ['ODAT[%dl]' % i for i in range(_be)]),
     inst='EdgeTy with has_value (edge data moved with the edge), no NUMA options; temporary arrays = locals with arbitrary initial content',
     says='BOUNDED: in-place transpose of every graph with <= 3 nodes and <= %d edges,' % _be + ' the iterations of every parallel loop taken in every order: the index array is a valid CSR index again and the graph presents exactly the reversed edge multiset with each edge\'s data (the atomic counters hand every edge its own slot of its new source\'s range)',
     trusted=['galois::do_all runs every iteration exactly once (C03/C04); iterations are interleaved at iteration granularity only (each shared access inside is one atomic read-modify-write or touches a slot no other iteration touches)', 'allocation block dropped; edgeDataCopy inlined by rule (non-void overload)']))
